@@ -1,26 +1,38 @@
 import Zc.Proofs.DecodeLib
+import Zc.Proofs.DecodeWork
 import Zc.Proofs.DecodeRefute
 import Zc.Proofs.DecodeAgreeMsg
+import Zc.Proofs.DecodeAgreeMixed
 import Zc.Proofs.Utf8RoundTrip
 import Zc.Proofs.NameText
 /-! # C02 — the decoder is total, bounded and faithful on arbitrary datagrams
 
 `parse b` is the model of `DNSIncoming(b)` followed by `.answers()` (`Zc.Wire.DecodeLib`), a total
 function on **all** byte strings; every theorem below is quantified over all of them (the 8966-byte
-datagram limit only enters where a number is derived from the length).  The hop bound of the D2
+datagram limit only enters where a number is derived from the length).  **Every theorem here is a statement
+about that model** — its control flow, containers and raise sites are hand-written (exception classes are
+assigned by hand at each site), its numeric tests and constants are translated from the source; what ties
+the model to `incoming.py` is the result-exact differential run of stage C, not these theorems.  The hop bound of the D2
 repair enters through `GenFacts.Incoming.hop_limit`; on a tree without it that lemma, and therefore
 this file, does not build. -/
 namespace Zc
 open Zc.Wire Zc.Wire.DecodeLib Zc.Wire.DecodeSpec
 
-/-- the listener only hands datagrams of at most 8966 bytes to the decoder -/
+/-- the size test of the listener: `listenerAccepts` is *defined* as the negation of the translated leaf
+`oversize` (`len(data) > _MAX_MSG_ABSOLUTE`, `_listener.py`), so this says that today's constant makes that test
+let through at most 8966 bytes.  That `datagram_received` applies the test before anything else is not a theorem
+of this file: the harness (`guard_stream`) runs the real method on lengths around the limit. -/
 theorem C02_guard (b : Bytes) (h : listenerAccepts b = true) : b.length ≤ 8966 := by
   unfold listenerAccepts at h
   exact GenFacts.Incoming.not_oversize_le (by simpa using h)
 
-/-- **Totality.** No exception leaves `DNSIncoming(b)` or `answers()`: every raise site of the
-decoder is an `IndexError` or an `IncomingDecodeError`, both are in `DECODE_EXCEPTIONS`, and the
-interpreter's recursion limit (the only other way out) is never reached. -/
+/-- **Totality (of the model).** No exception leaves the model's `DNSIncoming(b)` or `answers()`: every raise site
+*of the model* — the subscripts `view[i]` (`byteAt`), the explicit `raise IncomingDecodeError` sites of
+`_decode_labels_at_offset` / `_read_name`, each placed by hand where `incoming.py` has it — carries the class
+`IndexError` or `IncomingDecodeError`, both names are in the translated `DECODE_EXCEPTIONS`, and the model's
+recursion budget (900 nested activations standing for the interpreter's limit) is never reached.  That the code has
+no other raise site is checked by stage C (exception class and place of escape compared on every generated
+datagram), not proved. -/
 theorem C02_no_escape (b : Bytes) : (parse b).escaped = none :=
   (parseWith_spec libCfg_ok b).noEscape
 
@@ -75,18 +87,62 @@ theorem C02_work_8966 (b : Bytes) (hb : b.length ≤ 8966) :
   calc (parse b).st.reads ≤ b.length * (parse b).st.acts := h3
     _ ≤ 8966 * 3470100 := Nat.mul_le_mul hb (by omega)
 
-/-- **The other loop.**  `_read_bitmap` (the only loop besides the name decoder and the two section loops
-that a datagram can drive) finishes within `len + 1` iterations per call, wherever it starts and whatever
-`end` is: the model's loop carries that many units of fuel and never runs out of them (running out is the
-`.other` pseudo-exception).  It is called at most once per `_read_name` (after the NSEC next-name), so
-a datagram of `n` bytes causes at most `(n + 1) · (3n + 2)` window iterations, each over ≤ 255 bitmap
-bytes.  (No counter for this loop is carried in `Run.st`; on the implementation the wall-clock watchdog
-of the harness is the only guard for it — see notes/agents/C02.md, review finding F5.) -/
+/-- **The other loop, per call.**  The model's `readBitmap` (`_read_bitmap`) carries `len + 1` units of fuel per
+call and never runs out of them (running out is the `.other` pseudo-exception), wherever it starts and whatever
+`end` is.  This is a fact about one call of the model's loop; the total over a datagram is `C02_total_work`. -/
 theorem C02_bitmap_loop_bounded (b : Bytes) (end_ : Nat) (st : St) :
     (readBitmap b end_ (b.length + 1) st).2 ≠ .error .other := by
   intro h
   have := (readBitmap_spec b end_ (b.length + 1) st (by omega)).2.1 _ h
   simp [Benign] at this
+
+/-- **Bounded work, every other loop: linear in the length of the datagram.**  `parseWork b` counts, along the
+model's own run, the iterations of the question loop and of the record loop, the calls of `_read_bitmap`, its
+`while` iterations, the bitmap bytes its inner loop scans and the rdtypes it appends — with `names/acts/reads` of
+`C02_work` these are all the loops of `incoming.py` a datagram can drive.  For a datagram of `n` bytes:
+a question takes at least 5 bytes and a record at least 11; `_read_bitmap` runs at most once per record; **over all
+calls together** the scanned bitmap bytes are disjoint pieces of the datagram and every completed `while` iteration
+consumes two more bytes (`bmBytes + 2·bmIters ≤ n + 2`: the only way the offset moves backwards is `self.offset = end`
+after a failed record, and a record that fails inside `_read_bitmap` did so at the end of the datagram with `end`
+beyond it); a byte names at most 8 rdtypes.  (The earlier prose bound `(n+1)(3n+2)` iterations was an
+over-estimate by a factor `n`.) -/
+theorem C02_total_work (b : Bytes) :
+    5 * (parseWork b).questions ≤ b.length + 5 ∧ 11 * (parseWork b).records ≤ b.length + 11 ∧
+    (parseWork b).bmCalls ≤ (parseWork b).records ∧
+    (parseWork b).bmBytes + 2 * (parseWork b).bmIters ≤ b.length + 2 ∧
+    (parseWork b).bmTypes ≤ 8 * (parseWork b).bmBytes :=
+  parseWorkWith_spec libCfg_ok b
+
+/-- the predicate the harness evaluates on the loop counters measured on the implementation holds of the model -/
+theorem C02_work_within (b : Bytes) : workWithin b.length (parseWork b) = true := by
+  obtain ⟨h1, h2, h3, h4, h5⟩ := C02_total_work b
+  simp [workWithin, h1, h2, h3, h4, h5]
+
+/-- the bound is reached up to the constant: one NSEC record whose rdata is 100 windows of one `0xFF` byte makes the
+loop run 100 times over 100 bytes and append 800 types, in a datagram of 326 bytes -/
+example : parseWork (nsecWindowsPacket 100) = { records := 1, bmCalls := 1, bmIters := 100, bmBytes := 100, bmTypes := 800 }
+    ∧ (nsecWindowsPacket 100).length = 326 := by
+  decide +kernel
+
+/-- the loop counters as plain numbers at the datagram limit -/
+theorem C02_total_work_8966 (b : Bytes) (hb : b.length ≤ 8966) :
+    (parseWork b).questions ≤ 1794 ∧ (parseWork b).records ≤ 816 ∧ (parseWork b).bmCalls ≤ 816 ∧
+    (parseWork b).bmIters ≤ 4484 ∧ (parseWork b).bmBytes ≤ 8968 ∧ (parseWork b).bmTypes ≤ 71744 := by
+  obtain ⟨h1, h2, h3, h4, h5⟩ := C02_total_work b
+  refine ⟨by omega, by omega, by omega, by omega, by omega, by omega⟩
+
+/-- **The fixed budget in executed source lines.**  `lineCost` is the calibrated cost model the harness holds the
+implementation to (stage O: the source lines of the `zeroconf` package executed while decoding a datagram must not
+exceed it, evaluated on the counters measured on the implementation).  On the model's own counters it is bounded
+by a fixed number for every datagram the listener lets through; the part owed to the two section loops and to
+`_read_bitmap` is at most 2 454 768 lines, the rest is the name decoder's product bound of `C02_work_8966`
+(fixed, not small). -/
+theorem C02_lines_8966 (b : Bytes) (hb : b.length ≤ 8966) :
+    lineCost (parse b).st.names (parse b).st.acts (parse b).st.reads (parseWork b) ≤ 2489455422768 := by
+  obtain ⟨h1, h2, h3⟩ := C02_work_8966 b hb
+  obtain ⟨g1, g2, g3, g4, g5, g6⟩ := C02_total_work_8966 b hb
+  unfold lineCost
+  omega
 
 /-- **Short names.** Every name on the returned object — question names, owner names, PTR/CNAME
 targets, SRV targets, NSEC next names — is at most 253 characters long (valid or not). -/
@@ -112,6 +168,35 @@ theorem C02_agrees_strict (b : Bytes) (m : WMsg) (h : Strict.decode b = some m)
     (hs : Strict.supportedOnly m = true) (hr : reencodable m = true) :
     ∃ p, (parse b).out = .ok p ∧ agrees p m = true :=
   parse_agrees libCfg_ok libCfg_agree b m h hs hr
+
+/-- **Faithfulness beyond the sentence: records of unsupported types are skipped and disturb nothing.**  The
+property only speaks of datagrams that use supported record types; nearly half of the strict-accepted datagrams the
+harness generates carry an unsupported record somewhere (second review, finding 4).  For those the model's object is
+valid and carries the strict parser's header, questions and its records *of supported types*, in packet order
+(`agreesSupported`: an unsupported record costs `self.offset += length` and nothing else).  No `supportedOnly`
+hypothesis; with it, `flatSupported = flat` and this is `C02_agrees_strict` again
+(`C02_agrees_strict_from_supported_part`).  The harness judges the implementation against this on every
+strict-accepted datagram that is outside the property's hypothesis only because of an unsupported type, and reports a
+difference as a broken correspondence (the property itself does not forbid, say, dropping such a message). -/
+theorem C02_agrees_strict_supported_part (b : Bytes) (m : WMsg) (h : Strict.decode b = some m)
+    (hr : reencodable m = true) :
+    ∃ p, (parse b).out = .ok p ∧ agreesSupported p m = true :=
+  parse_agrees_mixed libCfg_ok libCfg_agree b m h hr
+
+theorem C02_agrees_strict_from_supported_part (b : Bytes) (m : WMsg) (h : Strict.decode b = some m)
+    (hs : Strict.supportedOnly m = true) (hr : reencodable m = true) :
+    ∃ p, (parse b).out = .ok p ∧ agrees p m = true := by
+  obtain ⟨p, hp, ha⟩ := C02_agrees_strict_supported_part b m h hr
+  refine ⟨p, hp, ?_⟩
+  simpa [agrees, agreesSupported, flatSupported_eq_flat m hs] using ha
+
+/-- a message with content: an answer of the unsupported type 99 between two PTR answers (the second one owned by a
+pointer *across* the unsupported record); the model returns the two PTR records -/
+example : (match Strict.decode mixedWitness, (parse mixedWitness).out with
+           | some m, .ok p => !Strict.supportedOnly m && reencodable m && agreesSupported p m && decide (p.records.length = 2)
+               && decide (m.answers.length = 3)
+           | _, _ => false) = true := by
+  decide +kernel
 
 /-- the literal sentence of the property, without the `reencodable` proviso -/
 def C02_agrees_strict_literal : Prop :=
